@@ -67,6 +67,9 @@ func (m SchemaModel) render() map[string]string {
 			b.WriteString("}\n\n")
 		}
 	}
+	// a scalar bound to a type of the user's util package: a field of this type makes the resolver
+	// file import that package (whose name a user alias of another import may already have taken)
+	a.WriteString("scalar Stamp\n")
 	out := map[string]string{"a.graphqls": a.String()}
 	if b.Len() > 0 {
 		out["b.graphqls"] = b.String()
@@ -85,7 +88,7 @@ func (m SchemaModel) yml(layout string, opts ...string) string {
 	for _, o := range opts {
 		sb.WriteString("  " + o + ": true\n")
 	}
-	sb.WriteString("models:\n")
+	sb.WriteString("models:\n  Stamp:\n    model: PKGPATH/util.Stamp\n")
 	for _, t := range m.Types[1:] {
 		fmt.Fprintf(&sb, "  %s:\n    fields:\n", t.Name)
 		fmt.Fprintf(&sb, "      placeholder%s:\n        resolver: false\n", t.Name)
@@ -426,6 +429,7 @@ func check(c Case) *vfrun.Failure {
 		_ = os.MkdirAll(filepath.Join(dir, sub), 0o755)
 		_ = os.WriteFile(filepath.Join(dir, sub, sub+".go"), []byte("package "+sub+"\n\n// Wrap is a helper of the user's own package.\nfunc Wrap(s string) string { return s }\n"), 0o644)
 	}
+	_ = os.WriteFile(filepath.Join(dir, "util", "stamp.go"), []byte("package util\n\nimport (\n\t\"fmt\"\n\t\"io\"\n\t\"strconv\"\n)\n\n// Stamp is the Go type of the Stamp scalar.\ntype Stamp string\n\nfunc (s Stamp) MarshalGQL(w io.Writer) { _, _ = io.WriteString(w, strconv.Quote(string(s))) }\n\nfunc (s *Stamp) UnmarshalGQL(v any) error {\n\t*s = Stamp(fmt.Sprint(v))\n\treturn nil\n}\n"), 0o644)
 	_ = os.MkdirAll(filepath.Join(dir, "strutil"), 0o755)
 	_ = os.WriteFile(filepath.Join(dir, "strutil", "strutil.go"), []byte("package strutil\n\n// Pad is a helper of the user's own package.\nfunc Pad(s string) string { return s }\n"), 0o644)
 	// a package meant to be dot-imported: its only exported name cannot collide with anything else
@@ -452,6 +456,7 @@ func check(c Case) *vfrun.Failure {
 		if c.SameBase {
 			yml = strings.Replace(yml, "\"*.graphqls\"", "\"./**/*.graphqls\"", 1)
 		}
+		yml = strings.ReplaceAll(yml, "PKGPATH", pkgPath)
 		_ = os.WriteFile(filepath.Join(dir, "gqlgen.yml"), []byte(yml), 0o644)
 	}
 	schema := c.Schema
@@ -731,7 +736,7 @@ func methodsOf(m SchemaModel) []string {
 }
 
 var fieldNames = []string{"alpha", "beta", "gamma", "delta", "epsilon", "zeta", "eta", "theta", "iota", "kappa"}
-var fieldTypes = []string{"String", "Int!", "[String!]", "Boolean", "Thing", "[Thing!]!"}
+var fieldTypes = []string{"String", "Int!", "[String!]", "Boolean", "Thing", "[Thing!]!", "Stamp", "Stamp!"}
 
 // evolve draws one schema evolution. preferred lists "Type.field" of resolvers the user has edited:
 // removals and renames pick among them most of the time (that is where user code can be lost).
